@@ -93,7 +93,9 @@ def build_harness(scratch, race=False, tags="verif"):
 # TLC
 
 def tlc_cmd(cfg, module, metadir, workers=4, xmx="4g", extra=()):
-    return ["java", "-XX:+UseParallelGC", "-XX:ParallelGCThreads=%d" % max(2, min(workers, 8)), "-Xmx" + xmx, "-Xss64m", "-cp", TLA_CP, "tlc2.TLC",
+    # TLC leaves a tlc-<n> directory in java.io.tmpdir per run: keep those inside the scratch directory
+    tmpdir = os.path.dirname(os.path.abspath(metadir))
+    return ["java", "-Djava.io.tmpdir=" + tmpdir, "-XX:+UseParallelGC", "-XX:ParallelGCThreads=%d" % max(2, min(workers, 8)), "-Xmx" + xmx, "-Xss64m", "-cp", TLA_CP, "tlc2.TLC",
             "-workers", str(workers), "-metadir", metadir, "-noGenerateSpecTE",
             "-config", cfg, *extra, module]
 
